@@ -1,11 +1,11 @@
 #!/bin/bash
-# tools/seed_batch.sh <ID> [srcroot]  : confirm + mutcheck the three seeds of a property
+# tools/seed_batch.sh <ID> [srcdir]  : confirm + mutcheck every m<k> under srcdir (default /root/mutwork/out_<ID>)
 ID=$1; SRC=${2:-/root/mutwork/out_$ID}
-for k in 1 2 3; do
-  [ -d $SRC/m$k ] || continue
-  echo "=== $ID-m$k"
-  [ -f /verif/seeded/$ID-m$k/meta.json ] || /verif/tools/confirm_seed.sh $ID $SRC/m$k $ID-m$k
-  if [ -f /verif/seeded/$ID-m$k/meta.json ]; then
-    /verif/tools/mutcheck.sh $ID /verif/seeded/$ID-m$k/patch.diff quick $ID-m$k | grep -E "^(VIOLATION|KNOWN|$ID tier)" | cut -c1-160
+for d in $(ls -d $SRC/m* 2>/dev/null | sort); do
+  k=$(basename $d)
+  echo "=== $ID-$k"
+  [ -f /verif/seeded/$ID-$k/meta.json ] || /verif/tools/confirm_seed.sh $ID $d $ID-$k
+  if [ -f /verif/seeded/$ID-$k/meta.json ]; then
+    /verif/tools/mutcheck.sh $ID /verif/seeded/$ID-$k/patch.diff quick $ID-$k | grep -E "^(VIOLATION|KNOWN|$ID tier)" | cut -c1-160
   fi
 done
